@@ -132,6 +132,43 @@ theorem genTpsApply_eq {n m : ℕ} (a : TpsObj n) (P : Mat m 2) :
   rw [e0, e1, e2]
   try ring
 
+/-! ### the coded (truncated-SVD) path recovers affine maps exactly -/
+
+/-- with the SVD contract for the symmetric system and no singular value dropped, the coded coefficients solve the system -/
+theorem tps_svd_solves {n : ℕ} (K : Mat n n) (S T : Mat n 2) (U Vt : Mat (n + 3) (n + 3)) (s : Vec (n + 3))
+    (minSing : ℚ) (hmin : 0 < minSing) (hsvd : SvdOK (tpsL K S) U s Vt) (hsym : tr (tpsL K S) = tpsL K S)
+    (hall : ∀ i, minSing ≤ s i) : mul (tpsL K S) (tpsFitSvd U s Vt minSing T) = tpsY T := by
+  rw [tps_svd_product K S T U Vt s minSing hsvd hsym (fun i _ => by have := hall i; intro h0; rw [h0] at this; linarith)]
+  have hk := tpsKeep_full s minSing hall
+  have hmask : diagV (keepMask (tpsKeep s minSing) : Vec (n + 3)) = MenpoModel.C07.one := by
+    funext a b
+    have := a.isLt
+    simp only [diagV, keepMask, MenpoModel.C07.one, hk, this, if_true]
+  rw [hmask]
+  apply toM_inj
+  simp only [toM_mul, toM_tr, toM_one, Matrix.one_mul]
+  rw [← Matrix.mul_assoc, hsvd.orthV.toM_left, Matrix.one_mul]
+
+/-- **as coded, an affine image of the source is recovered exactly**: the coefficients `_build_coefficients` computes
+are the purely affine ones (zero bending block), when no singular value is dropped and the system is invertible -/
+theorem tps_svd_affine_recovery {n : ℕ} (K : Mat n n) (S : Mat n 2) (H0 : HMat 2) (U Vt : Mat (n + 3) (n + 3))
+    (s : Vec (n + 3)) (minSing : ℚ) (hmin : 0 < minSing) (hsvd : SvdOK (tpsL K S) U s Vt)
+    (hsym : tr (tpsL K S) = tpsL K S) (hall : ∀ i, minSing ≤ s i) (Li : Mat (n + 3) (n + 3))
+    (hLi : mul (tpsL K S) Li = MenpoModel.C07.one) : tpsFitSvd U s Vt minSing (applyH H0 S) = tpsAffineCoef H0 :=
+  solve_unique _ Li hLi _ _ (by rw [tps_svd_solves K S _ U Vt s minSing hmin hsvd hsym hall, tpsL_mul_affineCoef])
+
+/-- the same for the object the translated constructor builds (and after any `set_target` to an affine image) -/
+theorem src_tps_affine_recovery {n : ℕ} (ext : Ext) (kern : Kern n) (S T₀ : Mat n 2) (H0 : HMat 2) (minSing : ℚ)
+    (hmin : 0 < minSing) (hK : ∀ i j, kern.app S i j = kern.app S j i)
+    (hsvd : SvdOK (tpsL (kern.app S) S) (ext.svd (tpsL (kern.app S) S)).1 (ext.svd (tpsL (kern.app S) S)).2.1
+      (ext.svd (tpsL (kern.app S) S)).2.2)
+    (hall : ∀ i, minSing ≤ (ext.svd (tpsL (kern.app S) S)).2.1 i) (Li : Mat (n + 3) (n + 3))
+    (hLi : mul (tpsL (kern.app S) S) Li = MenpoModel.C07.one) :
+    (retarget TpsObj.ops (genTpsSync ext) (tpsObjOf ext kern S T₀ minSing) (applyH H0 S)).coefficients =
+      tpsAffineCoef H0 := by
+  rw [tps_retarget]
+  exact tps_svd_affine_recovery _ S H0 _ _ _ minSing hmin hsvd (tpsL_symm _ S hK) hall Li hLi
+
 /-- `pseudoinverse()`: a fresh spline from the target to the source, its kernel re-centred on the new source -/
 theorem genTpsPinv_eq {n : ℕ} (ext : Ext) (rbf : Mat n 2 → Kern n) (rekern : Kern n → Mat n 2 → Kern n) (a : TpsObj n) :
     genTpsPinv ext rbf rekern a = some (tpsObjOf ext (rekern a.kernel a.target) a.target a.source a.minSing) := by
